@@ -413,10 +413,12 @@ func init() {
 	st["(*sync.Once).Do"] = func(fr *frame, args []value) value {
 		k := args[0].(*value)
 		if fr.i.p.onces[k] {
+			fr.i.p.raceAcquire(k)
 			return nil
 		}
 		fr.i.p.onces[k] = true
 		call(fr.i, fr, 0, args[1], nil)
+		fr.i.p.raceRelease(k)
 		return nil
 	}
 	st["(*sync.Pool).Get"] = func(fr *frame, args []value) value {
@@ -691,6 +693,7 @@ func init() {
 			s := (*args[0].(*value)).(structure)
 			slot := &s[idx]
 			fr.i.p.yieldPointAtomic()
+			fr.i.p.atomicSync(slot)
 			switch meth {
 			case "Load":
 				v := *slot
@@ -768,9 +771,18 @@ func init() {
 		short := strings.TrimPrefix(name, "sync/atomic.")
 		switch {
 		case strings.HasPrefix(short, "Load"):
-			return func(fr *frame, args []value) value { fr.i.p.yieldPointAtomic(); return *args[0].(*value) }
+			return func(fr *frame, args []value) value {
+				fr.i.p.yieldPointAtomic()
+				fr.i.p.atomicSync(args[0].(*value))
+				return *args[0].(*value)
+			}
 		case strings.HasPrefix(short, "Store"):
-			return func(fr *frame, args []value) value { fr.i.p.yieldPointAtomic(); *args[0].(*value) = args[1]; return nil }
+			return func(fr *frame, args []value) value {
+				fr.i.p.yieldPointAtomic()
+				fr.i.p.atomicSync(args[0].(*value))
+				*args[0].(*value) = args[1]
+				return nil
+			}
 		case strings.HasPrefix(short, "Add"):
 			return func(fr *frame, args []value) value {
 				fr.i.p.yieldPointAtomic()
@@ -804,5 +816,11 @@ func init() {
 
 // yieldPointAtomic: atomics are schedule points only when the harness asks for it.
 func (p *pathCtx) yieldPointAtomic() {}
+
+// atomicSync orders atomic operations on one cell (acquire + release).
+func (p *pathCtx) atomicSync(key interface{}) {
+	p.raceAcquire(key)
+	p.raceRelease(key)
+}
 
 var _ = sort.Strings
